@@ -18,7 +18,6 @@ from vt import c09lib   # noqa: F401  imported here so that forked workers inher
 from vt.c09lib import W9, judge, flags_key
 from vt.core import Part, HarnessError
 
-import os
 KS = ['ks1', 'ks2']
 NONTRIVIAL = set(['reuse', 'orphan', 'use-switched', 'use-noop'])
 
@@ -80,6 +79,8 @@ class H(explore.Harness):
         part.outcome(fk)
         for fl in fk:
             part.count('E_transitions_with_' + fl)
+        if st.stuck:
+            part.count('E_histories_cut_handler_never_returns')
         if st.flags & NONTRIVIAL:
             part.mark_nontrivial(repr(st.canon()))
         if 'reuse' in st.flags and 'late' in st.flags:
@@ -113,8 +114,7 @@ def e_configs(ctx):
         # (ids 0..3 per connection: a switch never finds a connection at full capacity, see the assumptions)
         ('v2-use', dict(base, protocol_version=2, max_in_flight=3, n_req=1, n_use=2, keyspaces=KS, max_faults=0), 6, 8),
     ]
-    only = os.environ.get('C09_ONLY')
-    return [(n, p, dt if ctx.thorough else dq) for n, p, dq, dt in cfgs if not only or n in only.split(',')]
+    return [(n, p, dt if ctx.thorough else dq) for n, p, dq, dt in cfgs]
 
 
 def run_e(ctx):
@@ -254,9 +254,7 @@ def s_configs(ctx):
         # the session is already on ks1: the switch finds the connection on the requested keyspace
         ('onks1-use+1', dict(base, keyspaces=KS, n_use=9, setup=[('use', 0), ('respond', 0), ('respond', 0)], clients=[['use0'], 1]), 1, 1),
     ]
-    only = os.environ.get('C09_ONLY')
-    return [(n, p, bt if ctx.thorough else bq) for n, p, bq, bt in cfgs if (bt if ctx.thorough else bq) is not None
-            and (not only or n in only.split(','))]
+    return [(n, p, bt if ctx.thorough else bq) for n, p, bq, bt in cfgs if (bt if ctx.thorough else bq) is not None]
 
 
 def run_s(ctx):
@@ -303,7 +301,9 @@ def run(ctx):
     ctx.assume('keyspace switches: a USE on a connection in service is held and answered by the explorer; a USE on a connection that is still '
                'being opened (pool creation, replacement: set_keyspace_blocking) is answered at once, the opener blocks on it.  The '
                'configurations are sized so that a switch never finds a connection at full capacity: Connection.set_keyspace_async '
-               'busy-waits for a free slot on the event-loop thread, which the single-threaded layer E cannot run (it would raise a harness error)')
+               'busy-waits for a free slot on the event-loop thread.  A history in which a handler cannot return (that busy-wait, or a thread '
+               'asking for a non-reentrant lock it holds) ends there, is not judged, and is counted in E_histories_cut_handler_never_returns '
+               '(0 on the unchanged tree)')
     ctx.assume('the id space is scaled down (max_in_flight 3-4, initial free list 1-2 ids, orphaned_threshold 2); the code paths are the same as for 32768 ids')
 
 
